@@ -1,6 +1,6 @@
 ------------------------------ MODULE Gen_C20 ------------------------------
 (* Every catalogued type's zero value; every truncation point of a well-formed encoding of every parsed structure. *)
-EXTENDS Enc, Ref, J_C20, GenUtil, Json
+EXTENDS Enc, J_C05, J_C20, GenUtil, Json
 CONSTANTS Tier, Seed, OutFile
 Thorough == Tier = "thorough"
 ZeroVecs == << [op |-> "Catalogue", fn |-> "catalogue"] >>
@@ -27,7 +27,27 @@ PartialVecs ==
 \* unknown types, flag bits, lengths), every 16-bit boundary value at every offset; the methods of whatever the parser returns are called
 MutVecs == SeqMap(LAMBDA v : [op |-> "ByteSweep", fn |-> v.fn, in |-> v["in"], values |-> << 0, 1, 2, 3, 5, 16, 17, 18, 127, 128, 254, 255 >>, values2 |-> << 0, 256, 65535 >>,
                               step |-> 1, partial |-> TRUE, cls |-> "partial-" \o v.cls] @@ (IF "typ" \in DOMAIN v THEN [typ |-> v.typ] ELSE << >>), PartialVecs)
-Vecs == ZeroVecs \o PartialVecs \o MutVecs
+\* "mutate, then sign": genuinely signed content with one structural defect (every offset of the covered region set to each boundary value before
+\* keys and signatures go into the reference slots).  What comes back together with an error must not verify.
+Opts2 == << << << 97 >>, << 98 >> >>, << << 99 >>, << 100 >> >> >>
+SMS(fn, base, st, typ, k) ==
+  LET sl == SlotsOf(fn, base, typ) IN
+  [op |-> "SignedMutSweep", fn |-> fn, in |-> base, base |-> base, st |-> st, typ |-> typ, prefix |-> StoreTypePrefix(fn), stream |-> k, partial |-> TRUE, step |-> 1,
+   values |-> << 0, 1, 2, 3, 4, 8, 16, 17, 128, 255 >>, values2 |-> << 0, 256, 65535 >>, cls |-> "signed-defect", patches |-> DefectPatches(fn, base, typ),
+   idkey |-> [off |-> sl.idoff, len |-> sl.idlen], sig |-> [off |-> sl.sigoff, len |-> sl.siglen]]
+  @@ (IF sl.off THEN [offline |-> [keyoff |-> sl.keyoff, keylen |-> sl.keylen, tst |-> (IF fn = "ReadEncryptedLeaseSet" THEN RefEncryptedLeaseSet(base).tst
+                                                                                        ELSE IF fn = "ReadLeaseSet2" THEN RefLeaseSet2(base).h.tst ELSE RefMetaLeaseSet(base).h.tst),
+                                   sigoff |-> sl.osigoff, siglen |-> sl.osiglen, from |-> sl.from, to |-> sl.to]] ELSE << >>)
+SignedDefectVecs ==
+  << SMS("ReadEncryptedLeaseSet", EncELS(11, T4, << 2, 88 >>, 0, << >>, 100, Fill(100, 2), 11, 5), 11, 0, 1),
+     SMS("ReadEncryptedLeaseSet", EncELS(7, T4, << 2, 88 >>, 1, EncOffline(T4, 7, 7, 4), 100, Fill(100, 2), 7, 5), 7, 0, 2),
+     SMS("ReadMetaLeaseSet", EncMeta(Id(7, 4), T4, << 2, 88 >>, 0, << >>, Opts2, 1, << EncMetaEntry(1, 3, T4, 1, << >>) >>, 7, 5), 7, 0, 3),
+     SMS("ReadMetaLeaseSet", EncMeta(Id(7, 4), T4, << 2, 88 >>, 1, EncOffline(T4, 7, 7, 4), Opts2, 2, << EncMetaEntry(1, 3, T4, 1, << >>), EncMetaEntry(2, 5, T4, 2, Opts2) >>, 7, 5), 7, 0, 4),
+     SMS("ReadLeaseSet2", EncLS2(Id(7, 4), T4, << 2, 88 >>, 0, << >>, Opts2, 1, << EncEncKey(4, 32, Fill(32, 1)) >>, 1, << EncLease2(1, T4, T4) >>, 7, 5), 7, 0, 5),
+     SMS("ReadLeaseSet2", EncLS2(Id(11, 4), T4, << 2, 88 >>, 1, EncOffline(T4, 7, 11, 4), << >>, 1, << EncEncKey(4, 32, Fill(32, 1)) >>, 1, << EncLease2(1, T4, T4) >>, 7, 5), 11, 0, 6),
+     SMS("ReadRouterInfo", EncRouterInfo(Id(7, 4), 7, Zeros(8), << Addr >>, 0, Opts2, 5), 7, 0, 7),
+     SMS("ReadLeaseSet", EncLeaseSet(Id(7, 4), 7, 2, << EncLease(1, T4, Zeros(8)), EncLease(2, T4, Zeros(8)) >>, 5), 7, 0, 8) >>
+Vecs == ZeroVecs \o PartialVecs \o MutVecs \o SignedDefectVecs
 VARIABLE done
 Init == done = FALSE
 Next == ~done /\ ndJsonSerialize(OutFile, Vecs) /\ PrintT(<< "GENERATED", Len(Vecs) >>) /\ done' = TRUE
